@@ -286,6 +286,24 @@ class Source:
                 return f
         return None
 
+    def local_receivers(self, f: Func) -> dict:
+        """local names of f bound exactly once to a call-free attribute chain (`acc = self.access`): name -> dotted chain"""
+        cache = self.__dict__.setdefault("_recv_cache", {})
+        if id(f) not in cache:
+            stores: dict = {}
+            for n in ast.walk(f.node):
+                if isinstance(n, ast.Name) and isinstance(n.ctx, (ast.Store, ast.Del)):
+                    stores[n.id] = stores.get(n.id, 0) + 1
+            out = {}
+            for n in ast.walk(f.node):
+                if isinstance(n, ast.Assign) and len(n.targets) == 1 and isinstance(n.targets[0], ast.Name) and stores.get(n.targets[0].id) == 1 \
+                        and isinstance(n.value, ast.Attribute) and n.targets[0].id not in f.params:
+                    d = self.dotted(n.value)
+                    if d:
+                        out[n.targets[0].id] = d
+            cache[id(f)] = out
+        return cache[id(f)]
+
     def resolve_call(self, f: Func, call: ast.Call, local_types: dict | None = None):
         """Return Func|Class|str(qualified external)|None for the callee of `call` inside f."""
         fn = call.func
@@ -294,6 +312,10 @@ class Source:
         if d is None:
             return None
         head = d.split(".")[0]
+        recv = self.local_receivers(f)
+        if head in recv and "." in d:          # `acc = self.access; acc.assert_writeable()` resolves like `self.access.assert_writeable()`
+            d = recv[head] + d[len(head):]
+            head = d.split(".")[0]
         # nested local def
         if isinstance(fn, ast.Name):
             ff = f
